@@ -36,7 +36,7 @@ Arguments Raise {A} e.
 Inductive report := SyntaxErrorInAnnotation | InvalidParameters (e : sig_error) | OverloadAfterPrimary.
 
 (* ---- astutils._AnnotationStringParser ----------------------------------------------------------- *)
-(* visit: None = SyntaxError raised *)
+(* visit: the node returned; None = SyntaxError raised *)
 Fixpoint visit (e : expr) : option expr :=
   match e with
   | ENoneLit => Some ENoneLit                              (* visit_Constant, not a str: generic_visit *)
@@ -46,15 +46,8 @@ Fixpoint visit (e : expr) : option expr :=
     match visit v with
     | None => None
     | Some v' =>
-      match v' with
-      | EName id =>
-        if text_eqb id lit_name then Some (ESub v' s)
-        else match visit s with Some s' => Some (ESub v' s') | None => None end
-      | EAttr _ attr =>
-        if text_eqb attr lit_name then Some (ESub v' s)
-        else match visit s with Some s' => Some (ESub v' s') | None => None end
-      | _ => match visit s with Some s' => Some (ESub v' s') | None => None end
-      end
+      if is_literal_head v' then Some (ESub v' s)          (* Name 'Literal' / Attribute .Literal: slice kept *)
+      else match visit s with Some s' => Some (ESub v' s') | None => None end
     end
   | EName id => Some (EName id)                            (* generic_visit *)
   | EAttr v a => match visit v with Some v' => Some (EAttr v' a) | None => None end
@@ -71,13 +64,60 @@ Fixpoint visit (e : expr) : option expr :=
     | Some ks' => Some (ENode t ks')
     | None => None
     end
+  | EList l =>
+    match (fix go (l : list expr) : option (list expr) :=
+             match l with
+             | [] => Some []
+             | k :: r =>
+               match visit k with
+               | None => None
+               | Some k' => match go r with Some r' => Some (k' :: r') | None => None end
+               end
+             end) l with
+    | Some l' => Some (EList l')
+    | None => None
+    end
   end.
 
-(* unstring_annotation: (node shown, reported?) *)
+(* NodeTransformer.generic_visit works IN PLACE: `setattr(node, field, new_node)` after each node-valued
+   field, `old_value[:] = new_values` after a list-valued field has been visited completely.  `after e` is
+   the state of the object e once visit(e) has returned or raised.  visit_Constant and visit_Subscript build
+   new nodes and leave the old object's own fields alone (but the objects below it may have changed). *)
+Fixpoint after (e : expr) : expr :=
+  match e with
+  | ENoneLit => ENoneLit
+  | EStr sid p => EStr sid p
+  | ESub v s =>
+    match visit v with
+    | None => ESub (after v) s
+    | Some v' => if is_literal_head v' then ESub (after v) s else ESub (after v) (after s)
+    end
+  | EName id => EName id
+  | EAttr v a => match visit v with Some v' => EAttr v' a | None => EAttr (after v) a end
+  | ENode t ks =>
+    ENode t ((fix go (l : list expr) : list expr :=
+                match l with
+                | [] => []
+                | k :: r => match visit k with Some k' => k' :: go r | None => after k :: r end
+                end) ks)
+  | EList l =>
+    match visit (EList l) with
+    | Some l' => l'
+    | None =>
+      EList ((fix go (l : list expr) : list expr :=
+                match l with
+                | [] => []
+                | k :: r => match visit k with Some _ => after k :: go r | None => after k :: r end
+                end) l)
+    end
+  end.
+
+(* unstring_annotation: (node shown, reported?).  `return node` after a SyntaxError hands back the
+   original object -- as the transformer left it. *)
 Definition unstring_annotation (e : expr) : expr * bool :=
   match visit e with
   | Some e' => (e', false)
-  | None => (e, true)
+  | None => (after e, true)
   end.
 
 Definition is_none_literal (e : expr) : bool := match e with ENoneLit => true | _ => false end.
@@ -284,7 +324,7 @@ Definition displayed_defs (name : text) (f : function) : list (list piece) :=
      end.
 
 (* ---- wire codec -------------------------------------------------------------------------------------
-   expr   := (0) | (1 sid [parse]) | (2 v s) | (3 text) | (4 v text) | (5 tag kid ...)     [x] = () or (x)
+   expr   := (0) | (1 sid [parse]) | (2 v s) | (3 text) | (4 v text) | (5 tag kid ...) | (6 e ...)     [x] = () or (x)
    arg    := (text [expr])
    args   := (posonly args [vararg] kwonly kw_defaults [kwarg] defaults)       kw_defaults: list of [expr]
    def    := (args [returns] overload async)
@@ -306,6 +346,7 @@ Fixpoint expr_of_sexp (fuel : nat) (s : sexp) : expr :=
     | 3 => EName (to_text (nth 1 l (L [])))
     | 4 => EAttr (expr_of_sexp f (nth 1 l (L []))) (to_text (nth 2 l (L [])))
     | 5 => ENode (to_N (nth 1 l (A 0))) (map (expr_of_sexp f) (skipn 2 l))
+    | 6 => EList (map (expr_of_sexp f) (skipn 1 l))
     | _ => ENoneLit
     end
   end.
@@ -323,6 +364,7 @@ Fixpoint sexp_of_expr (e : expr) : sexp :=
   | EName id => L [A 3; of_text id]
   | EAttr v a => L [A 4; sexp_of_expr v; of_text a]
   | ENode t ks => L (A 5 :: of_N t :: map sexp_of_expr ks)
+  | EList l => L (A 6 :: map sexp_of_expr l)
   end.
 
 Definition to_arg (s : sexp) : ast_arg := mkArg (to_text (nth_s 0 s)) (to_option to_expr (nth_s 1 s)).
